@@ -1,6 +1,6 @@
 ------------------------------ MODULE IosTrace ------------------------------
 (* Trace validation for the IOS family; structure as AsaTrace.tla.         *)
-EXTENDS Ios, Json, IOUtils, SequencesExt
+EXTENDS Ios, Merge, Json, IOUtils, SequencesExt
 
 VARIABLES l, i0, errl, nchg, moved
 tvars == <<l, i0, errl, nchg, moved>>
@@ -169,6 +169,11 @@ RouteUnsafe ==
                                      /\ ~\E c \in route : c.vrf = v /\ c.dst = r.dst
 
 -----------------------------------------------------------------------------
+\* C18: the ACL the script built on the empty device is the effective (merged) target
+IsMerge == "parts" \in DOMAIN T
+MergedAcl == LET c == intf["E0"].in IN IF c = "" \/ c \notin DOMAIN acl THEN <<>> ELSE Aces(c)
+MergeOK == Admissible(MergedAcl, T.parts.v4, T.parts.v6, T.parts.pre, T.parts.app)
+
 Post(j) ==
   /\ DOMAIN acl = DOMAIN j.acls /\ \A n \in DOMAIN acl : Aces(n) = j.acls[n]
   /\ intf = IntfOf(j) /\ route = RouteOf(j)
@@ -183,7 +188,9 @@ Mon ==
   /\ Chk(~(CompleteEntry /\ I0.safe /\ AclUnsafe), "C14", "access-list", AclUnsafeKF)
   /\ Chk(~(CompleteEntry /\ I0.safe /\ RouteUnsafe), "C14", "route", "")
   /\ Chk(LastEv.ev \in {"Resume", "Done"} => Post(LastEv.post), "HARNESS", "post state of replica differs", "")
-  /\ Chk(LastEv.ev = "Done" => Equivalent, "EQUIV", IF nchg = 0 THEN "unchanged" ELSE "final", KF_Cosmetic)
+  /\ Chk(LastEv.ev = "Done" /\ IsMerge => MergeOK, "C18",
+         IF IsMerge THEN Why(MergedAcl, T.parts.v4, T.parts.v6, T.parts.pre, T.parts.app) ELSE "", "")
+  /\ Chk(LastEv.ev = "Done" /\ ~IsMerge => Equivalent, "EQUIV", IF nchg = 0 THEN "unchanged" ELSE "final", KF_Cosmetic)
   /\ Chk(LastEv.ev = "Done" => LastEv.n2 = 0, "FIXPOINT", "second compare reports changes", KF_Cosmetic)
 
 Accepted == TLCGet("stats").diameter = Len(Trace)
